@@ -55,6 +55,19 @@ claim("C11", "proof",
       "are the discharged obligations; one clause (carry column) is a known finding with its residual proved.",
       "contract-based deductive verification: AST->VC generation (loop invariants, ghost state) + z3; bounded edit-locality "
       "exploration as stand-in for the derived property", "DESIGN.md §3 C11")
-for _p in ["C01", "C02", "C03", "C04", "C06", "C07", "C08", "C09", "C10", "C12", "C13",
+claim("C13", "proof",
+      "Frame conditions: for every function of flowmark's formatting path (all modules except cli/config/file_resolver/skill) "
+      "one obligation each that it declares no global, stores through no module-level name / imported module / class object, "
+      "calls no mutating method on a non-local object, uses no globals()/exec/setattr on shared objects and has no mutable "
+      "default; per module-level mutable binding and per @cache function an obligation that it cannot carry state; "
+      "MarkdownNormalizer.__init__ initialises every field a method reads; flowmark_markdown and _setup_extensions build fresh "
+      "parser/renderer objects unconditionally; fill_markdown parses and renders through the object it created in the same "
+      "call (VC discharged by z3). With no shared writable state every history and interleaving equals a serial one.",
+      "ST obligations are decided by exact syntactic write-set computation on the real ASTs (no aliasing analysis into "
+      "dependencies); Marko/regex internals assumed stateless for flowmark's purposes; the step from frames to 'any interleaving' "
+      "is the unchecked meta-lemma L-frame-serial; histories and threads are explored in the bounded layer.",
+      "contract-based verification: frame (modifies-nothing) obligations decided on the AST + one z3-discharged wiring VC; "
+      "bounded history/thread exploration", "DESIGN.md §3 C13")
+for _p in ["C01", "C02", "C03", "C04", "C06", "C07", "C08", "C09", "C10", "C12",
            "C17", "C18"]:
     NOT_APPLICABLE[_p] = "check not built yet in this round (planned in DESIGN.md §3); nothing is claimed"
